@@ -196,25 +196,39 @@ deriving DecidableEq, Repr, Inhabited
 /-- `get_mm_type` (64-bit build) -/
 def defaultMm (maxB : Nat) : Mm := if maxB != 0 && maxB ≤ 2^32 then .mmap else .order
 
+/-- `if (!mm) mm = get_mm_type(max_nr_buckets);` -/
+def resolveMm (mm : Option Mm) (maxB : Nat) : Mm :=
+  match mm with
+  | some m => m
+  | none => defaultMm maxB
+
+/-- `if (mm == &cds_lfht_mm_order && !max_nr_buckets) max_nr_buckets = 1UL << (MAX_TABLE_ORDER - 1);` -/
+def preMax (mm : Mm) (maxB : Nat) : Nat :=
+  if mm == .order && maxB == 0 then 2 ^ (Gen.MAX_TABLE_ORDER - 1) else maxB
+
+/-- the allocator's `alloc_cds_lfht`: adjustment of `min_nr_alloc_buckets`
+(`pageBuckets = getpagesize() / sizeof(struct cds_lfht_node)`) -/
+def allocMin (pageBuckets : Nat) (mm : Mm) (minA maxB : Nat) : Nat :=
+  match mm with
+  | .order => minA
+  | .chunk => max minA (maxB / Gen.MAX_CHUNK_TABLE)
+  | .mmap => if maxB ≤ pageBuckets then maxB else max minA pageBuckets
+
 /-- Accept/reject and normalise exactly as `_cds_lfht_new_with_alloc` + the allocator's
-`alloc_cds_lfht`.  `pageBuckets = getpagesize() / sizeof(struct cds_lfht_node)`.
-`none` = the C function returns NULL. -/
+`alloc_cds_lfht`.  `none` = the C function returns NULL. -/
 def newNorm (pageBuckets init minA maxB flags : Nat) (mm : Option Mm) : Option Cfg :=
   if !isPow2C minA then none
   else if !isPow2C init then none
   else
-    let mm := match mm with | some m => m | none => defaultMm maxB
-    let maxB := if mm == .order && maxB == 0 then 2 ^ (Gen.MAX_TABLE_ORDER - 1) else maxB
+    let mm := resolveMm mm maxB
+    let maxB := preMax mm maxB
     if !isPow2C maxB then none
     else
       let minA := max minA Gen.MIN_TABLE_SIZE
       let init := max init Gen.MIN_TABLE_SIZE
       let maxB := max maxB minA
       let init := min init maxB
-      let minA := match mm with
-        | .order => minA
-        | .chunk => max minA (maxB / Gen.MAX_CHUNK_TABLE)
-        | .mmap => if maxB ≤ pageBuckets then maxB else max minA pageBuckets
+      let minA := allocMin pageBuckets mm minA maxB
       some { size := 2 ^ countOrderNat init, minAlloc := minA, minAllocOrder := countOrderNat minA,
              maxB := maxB, mm := mm, flags := flags }
 
